@@ -27,7 +27,7 @@ FLOORS = {"histories": 1500, "steps": 20000, "slot_resolutions": 100000, "growth
           "empty_nd_reference_arrays": 300, "copy_same_buffer": 300, "copy_other_buffer": 300, "toplevel_union_get": 3000, "second_handle_resolutions": 50000, "copies_of_holders_with_default_targets": 200, "arrays_of_items_with_default_targets": 300}
 FLOORS.update({"op:" + o: 800 for o in OPS})
 FLOORS["op:bind-other-type"] = 150
-# (either accepted - then the slot denotes the union object's referent - or refused: both are counted)
+FLOORS["union_object_given_as_value"] = 150  # accepted (the slot then denotes the union object's referent) or refused
 RULE = ("generated reference-bearing types (Ref and UnionRef as struct fields and as array items, referents that hold "
         "references themselves, 1-3 dimensional arrays of references in any axis order created without values) in two "
         "buffers; histories of <=25 steps over {construct, construct-empty, copy of a holder into the same / the other "
@@ -539,6 +539,7 @@ def _step(G, op, rng, vg, tt, holders, holders_live, fresh):
             ucand = [x for x in G.objs.values() if x.h is not None and x.env is o.env and x.t is nt]
             if ucand:
                 uo = rng.choice(ucand)
+                G.w.count("union_object_given_as_value")
                 try:
                     set_path(o.h, p, uo.h)
                 except (TypeError, ValueError):
